@@ -145,6 +145,10 @@ func (ex *Exec) loopCut(st *State, h *ssa.BasicBlock, prev *ssa.BasicBlock, k co
 	fr := st.top()
 	fn := fr.Fn
 	if fn != ex.top || ex.topC == nil {
+		// a loop nobody wrote an invariant for: a pure scan loop has a canonical one
+		if ex.scanLoopCut(st, h, prev, k) {
+			return true
+		}
 		ex.oblige(st, "limit", fnName(ex.top)+"#tool-limit@loop-in-inlined-callee", nil, TFalse, "loop inside an uncontracted callee: "+fnName(fn))
 		return true
 	}
@@ -154,6 +158,9 @@ func (ex *Exec) loopCut(st *State, h *ssa.BasicBlock, prev *ssa.BasicBlock, k co
 		if cl.Kind == "invariant" && cl.Loop == ord {
 			invs = append(invs, cl)
 		}
+	}
+	if len(invs) == 0 && ex.scanLoopCut(st, h, prev, k) {
+		return true
 	}
 	backEdge := h.Dominates(prev)
 	// bind phis for evaluation of the invariant in the arriving state
@@ -453,4 +460,159 @@ func modPrefix(e *Expr) string {
 		return modPrefix(e.Args[0])
 	}
 	return ""
+}
+
+// ---- pure scan loops
+//
+// A loop whose only loop-carried variable is a counter stepping by one, and whose body neither writes memory
+// nor calls anything (for _, b := range bz { if b != 0 { return false } }), needs no written invariant: iteration
+// number i is reached exactly when every earlier iteration q went round again, and whether iteration q goes
+// round again is a function cont(q) of q and of values the loop does not change. The canonical invariant
+//     idx0 <= i  &&  forall q :: idx0 <= q < i ==> cont(q)
+// holds by that argument (nothing to prove), so the loop is cut with it assumed. cont is obtained by running
+// the loop once, symbolically, at the bound variable q.
+
+type scanProbe struct {
+	h     *ssa.BasicBlock
+	body  map[*ssa.BasicBlock]bool
+	base  int
+	cont  []*Term
+	exits int
+	bad   bool
+}
+
+// scanShape checks the syntactic side conditions and returns the counter phi.
+func scanShape(h *ssa.BasicBlock) *ssa.Phi {
+	var phi *ssa.Phi
+	for _, in := range h.Instrs {
+		if p, ok := in.(*ssa.Phi); ok {
+			if phi != nil {
+				return nil // a second loop-carried variable (an accumulator)
+			}
+			phi = p
+		}
+	}
+	if phi == nil || len(phi.Edges) != 2 {
+		return nil
+	}
+	if b, ok := phi.Type().Underlying().(*types.Basic); !ok || b.Info()&types.IsInteger == 0 {
+		return nil
+	}
+	body := loopBody(h)
+	// the back-edge value is phi + 1
+	step := false
+	for j, p := range h.Preds {
+		if body[p] {
+			if bo, ok := phi.Edges[j].(*ssa.BinOp); ok && bo.Op.String() == "+" && bo.X == ssa.Value(phi) {
+				if c, ok := bo.Y.(*ssa.Const); ok && c.Value != nil && c.Value.ExactString() == "1" {
+					step = true
+				}
+			}
+		}
+	}
+	if !step {
+		return nil
+	}
+	for b := range body {
+		for _, in := range b.Instrs {
+			switch x := in.(type) {
+			case *ssa.Phi, *ssa.BinOp, *ssa.UnOp, *ssa.IndexAddr, *ssa.Index, *ssa.FieldAddr, *ssa.Field, *ssa.If, *ssa.Jump,
+				*ssa.Convert, *ssa.ChangeType, *ssa.DebugRef, *ssa.Slice, *ssa.Extract:
+				if u, ok := in.(*ssa.UnOp); ok && u.Op.String() == "<-" {
+					return nil
+				}
+				if p, ok := in.(*ssa.Phi); ok && b != h {
+					_ = p // a phi inside the body merges paths of one iteration: fine
+				}
+			case *ssa.Call:
+				bi, ok := x.Call.Value.(*ssa.Builtin)
+				if !ok || (bi.Name() != "len" && bi.Name() != "cap") {
+					return nil
+				}
+			default:
+				return nil
+			}
+		}
+	}
+	return phi
+}
+
+func (ex *Exec) scanLoopCut(st *State, h *ssa.BasicBlock, prev *ssa.BasicBlock, k cont) bool {
+	phi := scanShape(h)
+	if phi == nil {
+		return false
+	}
+	if h.Dominates(prev) {
+		return true // back edge: this iteration went round again; covered by the cut at first arrival
+	}
+	fr := st.top()
+	idx := -1
+	for j, p := range h.Preds {
+		if p == prev {
+			idx = j
+		}
+	}
+	v0, ok := ex.val(st, phi.Edges[idx]).(VBV)
+	if !ok {
+		return false
+	}
+	start := 0
+	for i, in := range h.Instrs {
+		if _, ok := in.(*ssa.Phi); !ok {
+			start = i
+			break
+		}
+	}
+	// probe one iteration at the bound variable q
+	ex.scanSeq++
+	q := Var(fmt.Sprintf("q$scan%d", ex.scanSeq), v0.T.Sort)
+	pst := st.clone()
+	// quantify over the distance from the start value, so that an element access a[phi+1] of a range loop
+	// (start value -1) reads a[q]: a shape the solvers can match instances against
+	qphi := q
+	if v0.T.Op == "const" {
+		qphi = BVAdd(q, v0.T)
+	}
+	pst.top().Regs[phi] = VBV{qphi, v0.Signed}
+	p := &scanProbe{h: h, body: loopBody(h), base: len(pst.pc)}
+	saveProbe, saveTrace, saveCount := ex.probe, ex.pathTrace, ex.pathCount
+	ex.probe = p
+	func() {
+		defer func() {
+			if r := recover(); r != nil {
+				p.bad = true
+			}
+		}()
+		ex.runBlock(pst, h, prev, start, func(*State, []Value) { p.bad = true })
+	}()
+	ex.probe, ex.pathTrace, ex.pathCount = saveProbe, saveTrace, saveCount
+	if p.bad || len(p.cont) == 0 {
+		return false
+	}
+	cont := Or(p.cont...)
+	i := Fresh("scan."+phi.Comment, v0.T.Sort)
+	le, lt := BVUle, BVUlt
+	if v0.Signed {
+		le, lt = BVSle, BVSlt
+	}
+	st.assume(le(v0.T, i))
+	one := BV(v0.T.Width(), 1)
+	if v0.T.Op == "const" {
+		zero := BV(v0.T.Width(), 0)
+		n := BVSub(i, v0.T) // iterations completed
+		st.assume(Forall([]*Term{q}, Implies(And(le(zero, q), lt(q, n)), cont)))
+		// the instance the bounds reasoning needs (the iteration just before this one went round again), spelled out
+		st.assume(Implies(Neq(i, v0.T), Subst(cont, map[*Term]*Term{q: BVSub(n, one)})))
+	} else {
+		st.assume(Forall([]*Term{q}, Implies(And(le(v0.T, q), lt(q, i)), cont)))
+		st.assume(Implies(Neq(i, v0.T), Subst(cont, map[*Term]*Term{q: BVSub(i, one)})))
+	}
+	fr.Regs[phi] = VBV{i, v0.Signed}
+	ex.note(st, "pure scan loop in %s cut with its canonical invariant", fnName(fr.Fn))
+	ex.pathTrace = append(append([]string(nil), ex.pathTrace...), "scan")
+	if start == 0 {
+		ex.resumeHeader = h
+	}
+	ex.runBlock(st, h, prev, start, k)
+	return true
 }
